@@ -146,6 +146,13 @@ fn first_difference(a: &ast::Aidl, b: &ast::Aidl) -> String {
 fn judge_tree(stage: &str, i: u64, which: &str, a: &ast::Aidl, context: &serde_json::Value, st: &mut Stats) {
     field_coverage(a, st);
     st.inc(&format!("trees.{which}"));
+    if st.want_sample() {
+        if let Ok(r) = ron::to_string(a) {
+            if r.len() < 1500 {
+                st.sample(json!({"tree": which, "ron": r}));
+            }
+        }
+    }
     match crate::runner::lib(|| round_trip(a)) {
         Ok(Ok(())) => {}
         Ok(Err((sig, what))) => st.violate(stage, i, &sig, format!("{which} tree does not survive the round trip: {what}"), json!({"context": context, "difference": what})),
